@@ -187,6 +187,12 @@ func (g *G) genStep(cfg *MachineCfg, kind string) *world.Step {
 		return g.genPerturb(g.genPnftMsg, false)
 	case "bank":
 		return &world.Step{Kind: "tx", Tx: g.genBankSend()}
+	case "burn":
+		return &world.Step{Kind: "tx", Tx: g.genBurnTx()}
+	case "gov":
+		return &world.Step{Kind: "tx", Tx: g.genGovTx()}
+	case "crisis":
+		return &world.Step{Kind: "tx", Tx: g.genCrisisTx()}
 	case "authz":
 		return &world.Step{Kind: "tx", Tx: g.genAuthz(g.authzURLs())}
 	case "commit":
